@@ -17,7 +17,11 @@ Audit of the sites that are not constructor initialisations (status column expla
   * deserialize ×5: run only while the state is loading.
   * SyncEntry.__setitem__ `val._path`/`val._oid`: on a private copy; `updated(side, "oid"/"path"/"changed")` follows.  [not modelled]
   * get_latest / mark_dirty / update_entry `_last_gotten`: not a persisted field.
-  * SyncState.updated `ent[LOCAL/REMOTE]._changed = False`: same entry, `_dirtyset.add(ent)` follows.   [modelled: updatedEnt]
+  * SyncState.updated `ent[LOCAL/REMOTE]._changed = False` (key `ignored`) and `ent[other_side(side)]._changed = 0`
+    (key `changed`, commit ea02bff): the entry being updated, `_dirtyset.add(ent)` follows.             [modelled: updatedEnt, updatedChanged]
+  * SyncState._storage_update `ent._storage_id = None` (after the row of a trash entry is deleted): the storage id is
+    not a persisted field; a direct write on purpose (the hooked one would re-mark the entry dirty inside the
+    commit loop).                                                                                       [modelled: storageUpdate]
   * SyncState._change_path `prior_ent[side]._path = None`: a *different* entry (the ousted one); nothing marks it
     dirty — the statements that follow dirty `ent`.  Reached only when the path index holds another entry under
     `ent`'s own id (never, while the indexes are consistent: C11).                                      [modelled: ghost `silent`]
@@ -66,10 +70,12 @@ def audited : List (String × String × String × String × String) := [
   ("cloudsync/sync/state.py", "SyncEntry.mark_dirty", "self[side]._last_gotten", "assign", "none"),
   ("cloudsync/sync/state.py", "SyncState.updated", "ent[LOCAL]._changed", "assign", "dirty-after"),
   ("cloudsync/sync/state.py", "SyncState.updated", "ent[REMOTE]._changed", "assign", "dirty-after"),
+  ("cloudsync/sync/state.py", "SyncState.updated", "ent[other_side(side)]._changed", "assign", "dirty-after"),
   ("cloudsync/sync/state.py", "SyncState._change_path", "prior_ent[side]._path", "assign", "dirty-after"),
   ("cloudsync/sync/state.py", "SyncState._change_path", "ent[side]._path", "assign", "dirty-after"),
   ("cloudsync/sync/state.py", "SyncState._change_oid", "ent[side]._oid", "assign", "via-updated"),
-  ("cloudsync/sync/state.py", "SyncState.update_entry", "ent[side]._last_gotten", "assign", "none")
+  ("cloudsync/sync/state.py", "SyncState.update_entry", "ent[side]._last_gotten", "assign", "none"),
+  ("cloudsync/sync/state.py", "SyncState._storage_update", "ent._storage_id", "assign", "none")
 ]
 
 /-- the repo under test has exactly the audited private-field write sites -/
